@@ -51,7 +51,7 @@ theorem genericScalar_kind (c : Ctx) (S : Bool) (nkp : List Str) (v : J) (hv : v
     kindOf (c.genericScalar S nkp v) = kindOf v := by
   have h1 := c.scalar_kind nkp S false v hv
   unfold genericScalar
-  cases v <;> simp only [] <;> (repeat' split) <;> simp_all
+  cases v <;> simp only [] <;> (repeat' split) <;> simp_all [dollarString_kind]
 
 theorem pScalar_kind (c : Ctx) (S : Bool) (kp : List Str) (v : J) (hv : v.isScalar = true) :
     kindOf (c.pScalar S kp v) = kindOf v := by
